@@ -86,7 +86,10 @@ namespace GeographicLib {
         q = _e2m * Math::sq(Z / _a),
         r = (p + q - _e4a) / 6;
       if (_f < 0) swap(p, q);
-      if ( !(_e4a * q == 0 && r <= 0) ) {
+      // Treat q as zero if S = e4a * p * q / 4 (and hence disc) would lose
+      // precision through underflow, e.g., |Z| ~ 1e-150 m
+      if ( !(_e4a * q < numeric_limits<real>::min() /
+             numeric_limits<real>::epsilon() && r <= 0) ) {
         real
           // Avoid possible division by zero when r = 0 by multiplying
           // equations for s and t by r^3 and r, resp.
